@@ -127,12 +127,19 @@ def gen_cases(rng, tier):
         for ops in itertools.product(alphabet, repeat=n):
             yield {"ops": list(ops)}
     for pool in POOLS[3:]:
-        for rep in range(3 if tier == "quick" else 30):
+        for rep in range(4 if tier == "quick" else 32):
             keys = list(pool)
             rng.shuffle(keys)
             ops = [["set", k.hex(), (b"v" + k).hex()] for k in keys]
             ops += [["del", rng.choice(keys).hex()] for _ in range(rep % 3)]
             yield {"ops": ops}
+            # writes and deletes addressed to the common prefix itself (a proper prefix of every stored key: must be refused /
+            # change nothing, and must not slide down a spine of branch nodes onto another key)
+            if len(pool[0]) == 2:
+                pre = pool[0][:1]
+                tail = [[["set", pre.hex(), b"p".hex()]], [["del", pre.hex()]], [["sete", pre.hex()]],
+                        [["set", pre.hex(), b"p".hex()], ["del", pre.hex()]]][rep % 4]
+                yield {"ops": [["set", k.hex(), (b"v" + k).hex()] for k in keys] + tail}
     n = 900 if tier == "quick" else 30000
     for i in range(n):
         r = rng.random()
